@@ -894,11 +894,12 @@ impl ProtocolState {
                         }
                     }
                     MqttPacket::Publish(publish) => {
-                        if publish.qos == QualityOfService::ExactlyOnce && operation.qos2_pubrel.is_some() {
-                            // a publish in its pubrel phase is still tracked in the pending publish table and
-                            // gets re-queued from there; it must not be added to the resubmit queue here too
-                            self.high_priority_operation_queue.push_front(id);
-                        } else if publish.duplicate {
+                        if self.pending_publish_operations.contains_key(&publish.packet_id) {
+                            // a publish whose pubrel was being written on the connection that received its pubrec
+                            // is still tracked in the pending publish table and gets re-queued from there; it
+                            // must not be added to the resubmit queue here too
+                        } else if publish.duplicate || operation.qos2_pubrel.is_some() {
+                            // an interrupted retransmission (publish or pubrel) is not tracked anywhere else
                             self.resubmit_operation_queue.push_front(id);
                         } else if does_packet_pass_offline_queue_policy(&operation.packet, &self.config.offline_queue_policy) {
                             self.user_operation_queue.push_front(id);
